@@ -247,6 +247,113 @@ func runLockset(f lib.Flags, res *lib.Result, drv *lib.Driver, tbl *Table) {
 		rt.Count(code)
 	}
 	rt.Record("malformed", true, map[string]any{"line": rl[len(rl)-1]}, ra[len(ra)-1], "!bad-op")
+
+	// K1: whole synthetic tables through the decision the kernel runs on the extracted table (`raceFreeG`,
+	// one pass over runs of equal field) and through `frozenInB`, against the Go evaluation: grouped must be
+	// exactly "sorted by field and no unordered conflicting pair"
+	tt := res.Tie("lockset-tables", "K1",
+		"random synthetic tables of 0-9 rows (same row generator; sorted by field in 3 of 4 cases, as the extractor emits them) plus the extracted table itself: Lean `grouped` (raceFreeG, sortedByFieldB, raceFreeB) and `frozen` (frozenInB per field) vs the Go evaluation; non-trivial = the table has a conflicting pair; distinct by the encoded table")
+	nt := f.N(1500, 20000)
+	var tl []string
+	var twant []string
+	var nontriv []bool
+	goGrouped := func(t *Table) (string, bool) {
+		sorted := true
+		for i := 1; i < len(t.Rows); i++ {
+			if idx(t.Fields, t.Rows[i-1].Field) > idx(t.Fields, t.Rows[i].Field) {
+				sorted = false
+			}
+		}
+		free := len(goBadPairs(t)) == 0
+		conf := false
+		for i, a := range t.Rows {
+			for _, b := range t.Rows[i:] {
+				if goConflict(a, b) {
+					conf = true
+				}
+			}
+		}
+		return fmt.Sprintf("grouped=%s sorted=%s racefree=%s", bit(sorted && free), bit(sorted), bit(free)), conf
+	}
+	goFrozen := func(t *Table, field string) string {
+		for _, r := range t.Rows {
+			if r.Field == field && r.Kind == "W" && r.Phase != "init" {
+				return "0"
+			}
+		}
+		return "1"
+	}
+	wire := func(t *Table) string {
+		var all []string
+		for _, r := range t.Rows {
+			all = append(all, st.rowWire(r))
+		}
+		return strings.Join(all, " ")
+	}
+	for i := 0; i < nt; i++ {
+		t := &Table{Fields: st.Fields, Locks: st.Locks, Chans: st.Chans}
+		for k := rng.Intn(10); k > 0; k-- {
+			t.Rows = append(t.Rows, gen())
+		}
+		if rng.Intn(4) != 0 {
+			sort.SliceStable(t.Rows, func(a, b int) bool { return t.Rows[a].Field < t.Rows[b].Field })
+		}
+		w, conf := goGrouped(t)
+		tl = append(tl, strings.TrimSpace("grouped "+wire(t)))
+		twant = append(twant, w)
+		nontriv = append(nontriv, conf)
+		fld := fmt.Sprint(rng.Intn(3))
+		tl = append(tl, strings.TrimSpace("frozen "+fld+" "+wire(t)))
+		twant = append(twant, goFrozen(t, fld))
+		nontriv = append(nontriv, conf)
+	}
+	// the extracted table itself (in the extractor's order, and reversed = not sorted)
+	{
+		var all, rev []string
+		for _, r := range tbl.Rows {
+			all = append(all, tbl.rowWire(r))
+		}
+		for i := len(all) - 1; i >= 0; i-- {
+			rev = append(rev, all[i])
+		}
+		free := bit(len(bad) == 0)
+		tl = append(tl, "grouped "+strings.Join(all, " "))
+		twant = append(twant, fmt.Sprintf("grouped=%s sorted=1 racefree=%s", free, free))
+		nontriv = append(nontriv, true)
+		tl = append(tl, "grouped "+strings.Join(rev, " "))
+		twant = append(twant, fmt.Sprintf("grouped=0 sorted=0 racefree=%s", free))
+		nontriv = append(nontriv, true)
+		for _, fld := range tbl.Fields {
+			if strings.HasPrefix(fld, "published:") {
+				tl = append(tl, fmt.Sprintf("frozen %d %s", idx(tbl.Fields, fld), strings.Join(all, " ")))
+				twant = append(twant, goFrozen(tbl, fld))
+				nontriv = append(nontriv, true)
+				if goFrozen(tbl, fld) == "1" {
+					tt.Count("published location frozen")
+				} else {
+					tt.Count("published location WRITTEN")
+				}
+			}
+		}
+	}
+	tl = append(tl, "frozen x 0,R,live,0,-,-,-")
+	twant = append(twant, "!bad-op")
+	nontriv = append(nontriv, true)
+	ta, err := drv.Batch(tl)
+	if err != nil {
+		tt.Fail(err)
+		return
+	}
+	for i := range tl {
+		key := tl[i]
+		if len(key) > 300 {
+			key = fmt.Sprintf("%s…(%d bytes)#%d", key[:60], len(key), i)
+		}
+		tt.Record(key, nontriv[i], map[string]any{"line": key}, ta[i], twant[i])
+		if i < 2*nt {
+			tt.Count(twant[i])
+		}
+	}
 }
 
 // ---- race detector -------------------------------------------------------------------------------
@@ -257,7 +364,8 @@ func scopeVerdict(tbl *Table, sc scenario) (int, []string) {
 	for _, bp := range goBadPairs(tbl) {
 		a := tbl.Rows[bp.I]
 		for _, p := range sc.Scope {
-			if strings.HasPrefix(a.Field, p) {
+			// the contents of the messages a resource publishes are in scope wherever the resource is
+			if strings.HasPrefix(a.Field, p) || strings.HasPrefix(strings.TrimPrefix(a.Field, "published:"), p) {
 				n++
 				sigs = append(sigs, locksetSig(a, tbl.Rows[bp.J]))
 				break
@@ -277,6 +385,36 @@ func raceSig(r report, root string) (sig, what string) {
 	return "C11/race/" + fa + "|" + fb, what
 }
 
+// consumerSide: if `mine` is empty (or holds no row of a location `other` writes as published), return
+// the caller:consumer rows of the published locations written by `other`.
+func consumerSide(tbl *Table, other, mine []int) []int {
+	var add []int
+	for _, x := range other {
+		w := tbl.Rows[x]
+		if w.Kind != "W" || !strings.HasPrefix(w.Field, "published:") {
+			continue
+		}
+		have := false
+		for _, y := range mine {
+			if tbl.Rows[y].Field == w.Field {
+				have = true
+			}
+		}
+		if have {
+			continue
+		}
+		for i, r := range tbl.Rows {
+			if r.Field == w.Field && r.Fn == "caller:consumer" {
+				add = append(add, i)
+			}
+		}
+	}
+	if len(add) == 0 {
+		return mine
+	}
+	return append(append([]int{}, mine...), add...)
+}
+
 func trimStacks(r report) any {
 	out := []any{}
 	for _, s := range r.Stacks {
@@ -291,7 +429,7 @@ func trimStacks(r report) any {
 
 func runRace(f lib.Flags, res *lib.Result, tbl *Table) {
 	mon := res.Monitor("race-detector",
-		"each scenario (value, collection, collection-genid, bus, router, wrap-unary, wrap-stream, stream-bidi, group, electric, parent, metadata, waste-hail) runs in a child process of this -race binary with 4-16 goroutines (from the seed) of seeded random reads/writes/subscribes/cancels, interceptors and consumers that read what they are given; every report of the detector is a violation whose replay is the scenario + the two stacks; distinct = scenario x goroutine count")
+		"each scenario (value, value-equiv, collection, collection-genid, collection-models, bus, router, router-stack, wrap-unary, wrap-stream, stream-bidi, group, electric, electric-activate, parent, metadata, waste-hail, default-models) runs in a child process of this -race binary with 4-16 goroutines (from the seed) of seeded random reads/writes/subscribes/cancels, interceptors and consumers that read what they are given; every report of the detector is a violation whose replay is the scenario + the two stacks; distinct = scenario x goroutine count")
 	tie := res.Tie("table-vs-detector", "K4",
 		"per scenario: the table's verdict on the fields the scenario exercises (an unordered pair in scope allows a race, none forbids it) against what the detector saw; per detector report: the two stacks are mapped to table rows by their innermost repository frame and the table must call that pair unordered (a race between rows the table orders, or at a site missing from the table, is a disagreement); non-trivial = scenario executed to completion under the detector")
 	if !raceEnabled {
@@ -323,7 +461,7 @@ func runRace(f lib.Flags, res *lib.Result, tbl *Table) {
 		}
 	}
 	results := make([]childResult, len(jobs))
-	sem := make(chan struct{}, 4)
+	sem := make(chan struct{}, 5)
 	var wg sync.WaitGroup
 	t0 := time.Now()
 	for i, j := range jobs {
@@ -391,6 +529,10 @@ func runRace(f lib.Flags, res *lib.Result, tbl *Table) {
 			}
 			seen[sig] = true
 			ra, rb := rowsOf(r.Stacks[0], root, tbl), rowsOf(r.Stacks[1], root, tbl)
+			// one side writes into a published message, the other side is a caller that reads what it was
+			// given (no repository frame of its own, or a library read of the message): the caller's row
+			// is the synthetic `caller:consumer` reader of the same location
+			ra, rb = consumerSide(tbl, rb, ra), consumerSide(tbl, ra, rb)
 			verdict := "unordered"
 			switch {
 			case len(ra) == 0 || len(rb) == 0:
